@@ -381,8 +381,13 @@ def juniper_equiv(item, res):
             tag = "juniper-raises:%s" % type(p.exc).__name__
             if tag not in seen:
                 seen.add(tag)
-                res["violations"].append(dict(description="processing $9$ values raises %s" % type(p.exc).__name__, witness=dict(), tags=[tag],
-                                              replay=dict(replayer="secret_juniper", args=dict(p1="a", p2="a", s1="a", s2="b", order=list(order), same=same))))
+                # the harness's variables are named deterministically: the failing inputs are read off the path's model
+                def val(prefix, k):
+                    return "".join(chr(ev(p.model, z3.BitVec("%s%d" % (prefix, i), 8))) for i in range(k))
+                wargs = dict(p1=val("p", n), p2=val("p" if same else "q", n), s1=chr(ev(p.model, z3.BitVec("saltx", 8))), s2=chr(ev(p.model, z3.BitVec("salty", 8))),
+                             order=list(order), same=same)
+                res["violations"].append(dict(description="processing $9$ values raises %s" % type(p.exc).__name__, witness=wargs, tags=[tag],
+                                              replay=dict(replayer="secret_juniper", args=wargs)))
                 res["status"] = "violated"
             continue
         kind, blocks, vals, _ = p.result
